@@ -1320,14 +1320,14 @@ def rule_swizzle_value_type(chk):
                % ((name, len(bad), n) + tuple(bad[0])), where(fn), sample={"fn": name, "sequences": n, "wrong": len(bad)})
 
 
-def rule_lvalue_destination(chk):
+def rule_lvalue_destination(chk, prefix="C03.lvalue-dest"):
     """out / inout arguments bind by reference: ImplicitConversion::find evaluated (convmodel.py) for an Lvalue source and
     an Lvalue destination over scalar / vector / matrix shapes of two element types: a conversion is granted only between
     identical types or between T and vector<T,1>, never across element types or dimensions (those need a temporary,
     which is an rvalue)."""
     import convmodel as CM
     f = chk.facts
-    find = chk.anchor("C03.anchor/ImplicitConversion::find", f.fn("find", TY, self_ty="ImplicitConversion"), "ImplicitConversion::find")
+    find = chk.anchor(prefix.split(".")[0] + ".anchor/ImplicitConversion::find", f.fn("find", TY, self_ty="ImplicitConversion"), "ImplicitConversion::find")
     if not find:
         return
     cv = CM.Conversions(f)
@@ -1342,7 +1342,7 @@ def rule_lvalue_destination(chk):
                     n += 1
                     r = cv.find(src, "Lvalue", dst, "Lvalue")
                     if r[0] in ("unreadable", "aborts"):
-                        chk.ob("C03.lvalue-dest/readable", False, "find(%s -> %s) is %s: %s" % (src, dst, r[0], r[1]), where(find))
+                        chk.ob(prefix + "/readable", False, "find(%s -> %s) is %s: %s" % (src, dst, r[0], r[1]), where(find))
                         return
                     identical = src == dst
                     wrap = ea == eb and {sa, sb} == {"%s", "%s1"}
@@ -1350,7 +1350,7 @@ def rule_lvalue_destination(chk):
                         bad.append("%s -> %s" % (src, dst))
                     if r[0] == "Err" and (identical or wrap):
                         bad.append("%s -> %s refused" % (src, dst))
-    chk.ob("C03.lvalue-dest/no-conversion", not bad,
+    chk.ob(prefix + "/no-conversion", not bad,
            "%d type pairs: an lvalue destination accepts only the identical type or T <-> vector<T,1>" % n if not bad else
            "ImplicitConversion::find for an LVALUE destination: %s (%d case(s)): an out/inout parameter then binds to a converted temporary, i.e. an ill-typed call is accepted"
            % (bad[0], len(bad)), where(find), sample={"cases": n, "wrong": bad[:6]})
